@@ -445,8 +445,14 @@ def model_kwargs(case):
         kw = dict(n_modes=case["n_modes"], pca=case["use_pca"])
     rot_kw = None
     if zoo.kind(cls) in ("single_rot", "cross_rot"):
-        rot_kw = dict(n_modes=case["rot_modes"], power=case["power"])
+        # every fourth rotator is left un-computed (compute=False on in-memory data: fixed iteration count,
+        # modes NOT yet re-sorted by variance) -- transform must then follow the same, unsorted, order as scores()
+        rot_kw = dict(n_modes=case["rot_modes"], power=case["power"], compute=rot_compute(case))
     return kw, rot_kw
+
+
+def rot_compute(case):
+    return bool(case["dseed"] % 4 != 0)
 
 
 def fit_model(case, tr, obs):
